@@ -822,7 +822,7 @@ func (e *Extractor) ToMarkdownWithOptions(opts rag.MarkdownOptions) (string, []W
 			return "", nil, err
 		}
 		defer e.Close()
-		md, err := e.epubReader.Markdown()
+		md, err := e.epubReader.MarkdownWithHeadingOptions(epubdoc.ExtractOptions{}, opts.HeadingLevelOffset, opts.MaxHeadingLevel)
 		if err != nil {
 			return "", nil, err
 		}
